@@ -306,6 +306,14 @@ func normalizeOnce(dir string) (files []*nfile, changed bool, notes []string, de
 					okAll = false
 					break
 				}
+				if hasDefer(h.decl) {
+					_, isExpr := s.(*ast.ExprStmt)
+					n := len(st.fd.Body.List)
+					if !isExpr || n == 0 || st.fd.Body.List[n-1] != s {
+						okAll = false
+						break
+					}
+				}
 				txt, ok := inlineText(h, st.f, st.fd, s, st.call)
 				if !ok {
 					okAll = false
@@ -492,7 +500,9 @@ func inlinable(fd *ast.FuncDecl) bool {
 	ok := true
 	ast.Inspect(fd.Body, func(n ast.Node) bool {
 		switch x := n.(type) {
-		case *ast.DeferStmt, *ast.LabeledStmt:
+		case *ast.DeferStmt:
+			// allowed at tail call sites only (see hasDefer)
+		case *ast.LabeledStmt:
 			ok = false
 		case *ast.BranchStmt:
 			if x.Label != nil || x.Tok == token.GOTO {
@@ -509,6 +519,23 @@ func inlinable(fd *ast.FuncDecl) bool {
 		return ok
 	})
 	return ok
+}
+
+// hasDefer: the helper defers something (top level of its body, not inside a
+// function literal). Such a helper is inlined only where its exit is the
+// caller's exit: as the last statement of the caller's body.
+func hasDefer(fd *ast.FuncDecl) bool {
+	found := false
+	ast.Inspect(fd.Body, func(n ast.Node) bool {
+		switch n.(type) {
+		case *ast.FuncLit:
+			return false
+		case *ast.DeferStmt:
+			found = true
+		}
+		return true
+	})
+	return found
 }
 
 func forEachStmtList(body *ast.BlockStmt, fn func([]ast.Stmt)) {
@@ -716,7 +743,38 @@ func inlineText(h *helper, f *nfile, caller *ast.FuncDecl, s ast.Stmt, c *ast.Ca
 	var pre, inner strings.Builder
 	// receiver
 	argN := 0
+	written := map[string]bool{}
+	ast.Inspect(h.decl.Body, func(n ast.Node) bool {
+		switch x := n.(type) {
+		case *ast.AssignStmt:
+			for _, l := range x.Lhs {
+				if id, ok := l.(*ast.Ident); ok {
+					written[id.Name] = true
+				}
+			}
+		case *ast.IncDecStmt:
+			if id, ok := x.X.(*ast.Ident); ok {
+				written[id.Name] = true
+			}
+		case *ast.UnaryExpr:
+			if id, ok := x.X.(*ast.Ident); ok && x.Op == token.AND {
+				written[id.Name] = true
+			}
+		case *ast.RangeStmt:
+			for _, l := range []ast.Expr{x.Key, x.Value} {
+				if id, ok := l.(*ast.Ident); ok {
+					written[id.Name] = true
+				}
+			}
+		}
+		return true
+	})
 	bind := func(name string, t ast.Expr, val string, ptrRecv bool) bool {
+		if val == name && !written[name] {
+			// the caller passes its own variable of that name and the helper only reads it:
+			// no rebinding (keeps named results of the caller unshadowed)
+			return true
+		}
 		tt, ok := typeText(t)
 		if !ok {
 			return false
@@ -748,7 +806,80 @@ func inlineText(h *helper, f *nfile, caller *ast.FuncDecl, s ast.Stmt, c *ast.Ca
 	if len(params) != len(c.Args) || c.Ellipsis.IsValid() {
 		return "", false
 	}
+	// a `func()` parameter that receives a function literal and is called exactly once, as a
+	// statement, is replaced by the literal's body (the lock-wrapper idiom `locked(func(){…})`)
+	subst := map[string]string{}
 	for i, p := range params {
+		ft, isFT := ptypes[i].(*ast.FuncType)
+		lit, isLit := c.Args[i].(*ast.FuncLit)
+		if isFT && isLit && (ft.Params == nil || len(ft.Params.List) == 0) && ft.Results == nil {
+			uses, calls := 0, 0
+			ast.Inspect(h.decl.Body, func(n ast.Node) bool {
+				if id, ok := n.(*ast.Ident); ok && id.Name == p.Name {
+					uses++
+				}
+				if es, ok := n.(*ast.ExprStmt); ok {
+					if ce, ok := es.X.(*ast.CallExpr); ok && len(ce.Args) == 0 {
+						if id, ok := ce.Fun.(*ast.Ident); ok && id.Name == p.Name {
+							calls++
+						}
+					}
+				}
+				return true
+			})
+			hasRet := false
+			ast.Inspect(lit.Body, func(n ast.Node) bool {
+				switch n.(type) {
+				case *ast.ReturnStmt:
+					hasRet = true
+				}
+				return true
+			})
+			// the literal's free identifiers must mean the same inside the helper's scope
+			own := declaredNames(h.decl)
+			same := map[string]bool{}
+			if h.decl.Recv != nil {
+				if se, ok := c.Fun.(*ast.SelectorExpr); ok {
+					if id, ok := se.X.(*ast.Ident); ok && id.Name == h.decl.Recv.List[0].Names[0].Name {
+						same[id.Name] = true
+					}
+				}
+			}
+			for j, q := range params {
+				if id, ok := c.Args[j].(*ast.Ident); ok && id.Name == q.Name {
+					same[q.Name] = true
+				}
+			}
+			sel := map[*ast.Ident]bool{}
+			ast.Inspect(lit.Body, func(n ast.Node) bool {
+				if se, ok := n.(*ast.SelectorExpr); ok {
+					sel[se.Sel] = true
+				}
+				return true
+			})
+			litOwn := map[string]bool{}
+			ast.Inspect(lit.Body, func(n ast.Node) bool {
+				if as, ok := n.(*ast.AssignStmt); ok && as.Tok == token.DEFINE {
+					for _, l := range as.Lhs {
+						if id, ok := l.(*ast.Ident); ok {
+							litOwn[id.Name] = true
+						}
+					}
+				}
+				return true
+			})
+			clash := false
+			ast.Inspect(lit.Body, func(n ast.Node) bool {
+				if id, ok := n.(*ast.Ident); ok && !sel[id] && own[id.Name] && !same[id.Name] && !litOwn[id.Name] {
+					clash = true
+				}
+				return true
+			})
+			if uses == 1 && calls == 1 && !hasRet && !clash {
+				subst[p.Name] = "{ " + string(f.src[f.off(lit.Body.Lbrace)+1:f.off(lit.Body.Rbrace)]) + "\n}"
+				continue
+			}
+		}
 		if !bind(p.Name, ptypes[i], f.text(c.Args[i]), false) {
 			return "", false
 		}
@@ -813,24 +944,41 @@ func inlineText(h *helper, f *nfile, caller *ast.FuncDecl, s ast.Stmt, c *ast.Ca
 	// caller's own `return X` (guarded by X != nil), so that rules about what the caller
 	// returns still see it
 	forward := false
-	if is, ok := s.(*ast.IfStmt); ok && is.Else == nil && len(rtmp) == 1 && caller.Type.Results != nil && len(caller.Type.Results.List) == 1 && len(caller.Type.Results.List[0].Names) <= 1 {
+	fwdAssign, fwdBody := "", "" // `v = ` / `v := `, and the caller's return statement
+	if is, ok := s.(*ast.IfStmt); ok && is.Else == nil && len(rtmp) == 1 {
 		var v string
 		if as, ok := is.Init.(*ast.AssignStmt); ok && len(as.Lhs) == 1 {
 			if id, ok := as.Lhs[0].(*ast.Ident); ok {
 				v = id.Name
+				fwdAssign = v + " " + as.Tok.String() + " "
 			}
 		}
 		if be, ok := is.Cond.(*ast.BinaryExpr); ok && v != "" && be.Op == token.NEQ {
 			x, okx := be.X.(*ast.Ident)
 			y, oky := be.Y.(*ast.Ident)
 			if okx && oky && x.Name == v && y.Name == "nil" && len(is.Body.List) == 1 {
-				if rs, ok := is.Body.List[0].(*ast.ReturnStmt); ok && len(rs.Results) == 1 {
-					if rid, ok := rs.Results[0].(*ast.Ident); ok && rid.Name == v {
-						forward = true
-					}
+				if rs, ok := is.Body.List[0].(*ast.ReturnStmt); ok {
+					forward = true
+					fwdBody = f.text(rs)
 				}
 			}
 		}
+	}
+	// an error value that is known not to be nil: fmt.Errorf / errors.New, or an Err* variable
+	nonNil := func(e ast.Expr) bool {
+		switch x := e.(type) {
+		case *ast.CallExpr:
+			if se, ok := x.Fun.(*ast.SelectorExpr); ok {
+				if id, ok := se.X.(*ast.Ident); ok {
+					return (id.Name == "fmt" && se.Sel.Name == "Errorf") || (id.Name == "errors" && se.Sel.Name == "New")
+				}
+			}
+		case *ast.Ident:
+			return strings.HasPrefix(x.Name, "Err")
+		case *ast.SelectorExpr:
+			return strings.HasPrefix(x.Sel.Name, "Err")
+		}
+		return false
 	}
 	pureRet := func(e ast.Expr) bool {
 		switch x := e.(type) {
@@ -862,9 +1010,20 @@ func inlineText(h *helper, f *nfile, caller *ast.FuncDecl, s ast.Stmt, c *ast.Ca
 			as = strings.Join(rtmp, ", ") + " = " + strings.Join(rs, ", ") + "; "
 		}
 		last := lastIsRet && r == body.List[len(body.List)-1]
-		if forward && len(r.Results) == 1 && pureRet(r.Results[0]) {
+		if forward && len(r.Results) == 1 {
 			x := hf.text(r.Results[0])
-			as = "if " + x + " != nil { return " + x + " }; " + as
+			use := "; _ = " + strings.Fields(fwdAssign)[0] + "; "
+			switch {
+			case nonNil(r.Results[0]):
+				// the caller's `if v != nil { return … }` is certain to fire: spell it here
+				body := fwdBody
+				if v := strings.Fields(fwdAssign)[0]; strings.Join(strings.Fields(fwdBody), " ") == "return "+v && pureRet(r.Results[0]) {
+					body = "return " + x
+				}
+				as = fwdAssign + x + use + body + "; " + as
+			case pureRet(r.Results[0]):
+				as = "if " + x + " != nil { " + fwdAssign + x + use + fwdBody + " }; " + as
+			}
 		}
 		txt := "{ " + as
 		if needLabel && !last {
@@ -875,6 +1034,18 @@ func inlineText(h *helper, f *nfile, caller *ast.FuncDecl, s ast.Stmt, c *ast.Ca
 			txt = "{ " + as + "}"
 		}
 		bedits = append(bedits, edit{hf.off(r.Pos()) - bs, hf.off(r.End()) - bs, txt})
+	}
+	if len(subst) > 0 {
+		ast.Inspect(body, func(n ast.Node) bool {
+			if es, ok := n.(*ast.ExprStmt); ok {
+				if ce, ok := es.X.(*ast.CallExpr); ok && len(ce.Args) == 0 {
+					if id, ok := ce.Fun.(*ast.Ident); ok && subst[id.Name] != "" {
+						bedits = append(bedits, edit{hf.off(es.Pos()) - bs, hf.off(es.End()) - bs, subst[id.Name]})
+					}
+				}
+			}
+			return true
+		})
 	}
 	btxt := string(applyEdits(hf.src[bs:be], bedits))
 	// falling off the end of a function with named results returns them
